@@ -18,7 +18,10 @@ import (
 var tcBuiltins = map[string]bool{"len": true, "typeof": true, "has": true, "del": true, "str2bool": true, "sprint": true, "join": true,
 	"startswith": true, "endswith": true, "index": true, "exit": true, "panic": true, "sleep": true, "cls": true, "read": true,
 	"abs": true, "floor": true, "ceil": true, "round": true, "log": true, "sqrt": true, "sin": true, "cos": true,
-	"min": true, "max": true, "pow": true, "atan2": true, "upper": true, "lower": true, "trim": true, "replace": true, "str2num": true}
+	"min": true, "max": true, "pow": true, "atan2": true, "upper": true, "lower": true, "trim": true, "replace": true, "str2num": true,
+	"move": true, "line": true, "rect": true, "circle": true, "width": true, "color": true, "colour": true, "stroke": true, "fill": true,
+	"linecap": true, "text": true, "clear": true, "grid": true, "gridn": true, "dash": true, "ellipse": true, "hsl": true,
+	"printf": true, "sprintf": true, "repr": true, "split": true, "rand": true, "rand1": true}
 
 // tcFragment reports whether a program uses only what Spec/WellTyped.lean types, and if not, why.
 func tcFragment(prog *parser.Program) (bool, string) {
@@ -246,6 +249,8 @@ func tcHandWritten() []string {
 		"e := []\nf := {}\nprint e f\n",
 		"s := \"Hello, Wörld\"\nn := (len s) + (len [1 2]) + (len {a:1})\nu := (upper s) + (lower s) + (trim s \"H\") + (replace s \"l\" \"L\")\nb := (startswith s \"He\") and (endswith s \"d\") or (index s \"W\") > 3\nprint n u b (typeof n) (sprint n u) (join [1 2] \"-\")\n",
 		"x := str2num \"12\"\ny := str2num \"zz\"\nb := str2bool \"true\"\nprint x y b err errmsg\nm := {a:1}\nif has m \"a\"\n    del m \"a\"\nend\nprint m (abs -2) (floor 2.5) (ceil 2.5) (round 2.5) (sqrt 4) (min 1 2) (max 1 2) (pow 2 3) (sin 0) (cos 0) (log 1) (atan2 1 1)\n",
+		"move 10 20\nline 30 40\nrect 5 5\ncircle 3\nwidth 2\ncolor \"red\"\ncolour \"blue\"\nstroke \"green\"\nfill \"none\"\nlinecap \"round\"\ntext \"hi\"\nclear\nclear \"white\"\ngrid\ngridn 5 \"gray\"\ndash 1 2\ndash\nellipse 1 2 3\nellipse 1 2 3 4 5 6 7\nprint (hsl 10) (hsl 10 20 30 40)\n",
+		"printf \"%v %s\\n\" 1 \"a\"\ns := sprintf \"%5.2f|%v\" 1.5 [1 2]\nr := repr \"a\" [1] {k:true}\nw := split \"a,b\" \",\"\nn := (rand 5) + (rand1)\nprint s r w (len w) (n < 10)\n",
 		"cls\nsleep 0\nl := read\nprint l\nif l == \"x\"\n    panic \"boom\"\nend\nexit 3\n",
 		"x := [] + [1]\ny := [[]] + [[2]]\nprint x y [] {}\n",
 	}
